@@ -144,6 +144,17 @@ def install_env(ex, st, mod, fields):
         if d.startswith("cctz::time_zone::lookup(std::chrono::time_point"): ex.contracts[n] = lookup_tp
     def strftime(ex, st, a):
         buf, size, fmtp, tm = a
+        # the broken-down time handed to strftime is exactly ToTM of the looked-up fields (struct tm: sec, min, hour, mday, mon,
+        # year, wday, yday, isdst as ints at offsets 0..32); tm_year saturates at the int range
+        T = lambda off: ex.load(st, Ptr(tm.obj, smt.add(tm.off, off)), I32)
+        IMAX = (1 << 31) - 1; IMIN = -(1 << 31)
+        y1900 = sub(fields["y"], 1900)
+        want_year = ite(gt(y1900, IMAX), IMAX, ite(lt(y1900, IMIN), IMIN, y1900))
+        ex.prove(st, and_(eq(T(0), fields["ss"]), eq(T(4), fields["mm"]), eq(T(8), fields["hh"]), eq(T(12), fields["d"]), eq(T(16), sub(fields["m"], 1))),
+                 "ToTM: tm_sec/min/hour/mday/mon are the looked-up civil fields")
+        ex.prove(st, eq(T(20), want_year), "ToTM: tm_year is year - 1900, saturated only when that does not fit an int")
+        ex.prove(st, and_(eq(T(24), fields["wday"]), eq(T(28), sub(fields["yday"], 1)), eq(T(32), ite(ne(fields["dst"], 0), 1, 0))),
+                 "ToTM: tm_wday (0 = Sunday), tm_yday (0-based) and tm_isdst are those of the looked-up civil second")
         n = strmodel._cstrlen(ex, st, fmtp)
         text = bytes((ex.load(st, Ptr(fmtp.obj, fmtp.off + i), I8)) & 255 for i in range(n))
         out = strftime_model(text)
@@ -180,7 +191,7 @@ def job_format(fmt, year_digits=None, sign="pos"):
         # get_weekday / get_yearday are C17's subject: here they return an arbitrary weekday / day of year, and the reference
         # renders %u / %w from that same value (cctz::weekday: 0 = Monday ... 6 = Sunday; tm_wday: 0 = Sunday)
         wd = ex.input("weekday", 32, 0, 6); yd = ex.input("yearday", 32, 1, 366)
-        f["wday"] = fmod(add(wd, 1), 7)
+        f["wday"] = fmod(add(wd, 1), 7); f["yday"] = yd
         for pat, val in ((r"detail::get_weekday\(", wd), (r"detail::get_yearday\(", yd)):
             try:
                 nm = build.find_func(mod, pat); ex.merge_fns.discard(nm); ex.contracts[nm] = (lambda v: (lambda ex, st, a: v))(val)
@@ -238,7 +249,7 @@ PANEL_QUICK = ["%Y-%m-%d %H:%M:%S", "%E4Y-%m-%dT%H:%M", "%E*S", "%e|%u|%w|%Z|%%|
 def format_jobs(tier):
     js = [("driver-format:%r" % p, job_format, {"fmt": p, "year_digits": 6}) for p in PANEL_QUICK]
     js += [("driver-format:%r,negative" % p, job_format, {"fmt": p, "year_digits": 6, "sign": "neg"}) for p in ("%Y-%m-%d", "%E4Y")]
-    js += [("driver-format:%r(all int64,%s)" % (p, s), job_format, {"fmt": p, "sign": s}) for p in ("%Y", "%s") for s in ("pos", "neg")]
+    js += [("driver-format:%r(all int64,%s)" % (p, s), job_format, {"fmt": p, "sign": s}) for p in ("%Y", "%s", "%y") for s in ("pos", "neg")]
     return js
 
 def replay_parse_model(job, m):
@@ -256,13 +267,14 @@ def replay_parse_model(job, m):
             ds = [m.get("%s_%d" % (p[1], i), 48) for i in range(p[2])]
             data += bytes(ds); vals[p[1]] = int(bytes(ds))
         elif p[0] == "osign": b = m.get("osign", 43); data.append(b); vals["osign"] = b
-        elif p[0] == "any": b = m.get("anybyte", 32) & 255; data.append(b); vals["any"] = b
+        elif p[0] in ("any", "anynd"): b = m.get("anybyte", 32) & 255; data.append(b); vals["any"] = b
     zoff = m.get("zone_offset", 0)
     got = R.parse(fmt, bytes(data), zoff)
     I64MIN, I64MAX = -(1 << 63), (1 << 63) - 1
     if shape.startswith("s-"):
         v = -vals["s"] if shape == "s-neg" else vals["s"]
         ok = I64MIN <= v <= I64MAX and not (shape == "s-neg" and vals["s"] == 0)
+        if "any" in vals: ok = ok and chr(vals["any"]) in " \t\n\v\f\r"
         want = (v, 0) if ok else None
     else:
         g = lambda k, dflt=0: vals.get(k, dflt)
@@ -330,6 +342,11 @@ PARSE_SHAPES = {
     "s-short": ("%s", [("num", "s", 10)]),
     "ES": ("%H:%M:%E*S", [("num", "H", 2), ("lit", ":"), ("num", "M", 2), ("lit", ":"), ("num", "S", 2), ("lit", "."), ("num", "f", 3)]),
     "trailing": ("%H:%M", [("num", "H", 2), ("lit", ":"), ("num", "M", 2), ("any", "x")]),
+    # %s followed by something: only whitespace may follow the last field
+    "s-trail": ("%s", [("num", "s", 5), ("anynd", "x")]),
+    # a blank in the format matches a whole run of blanks in the input (format() pads %e with a blank)
+    "ws-run": ("%m %e", [("num", "m", 2), ("lit", "   "), ("num", "d", 1)]),
+    "ws-e": ("%m %e %H", [("num", "m", 2), ("lit", "  "), ("num", "d", 1), ("lit", " "), ("num", "H", 2)]),
     # %E4Y takes exactly four characters (sign included): shorter years are rejected, four-character ones are read
     "E4Y-4": ("%E4Y-%m-%d", [("num", "Y", 4), ("lit", "-"), ("num", "m", 2), ("lit", "-"), ("num", "d", 2)]),
     "E4Y-3": ("%E4Y-%m-%d", [("reject", "a three-digit year where %E4Y wants four characters"), ("num", "Y", 3), ("lit", "-"), ("num", "m", 2), ("lit", "-"), ("num", "d", 2)]),
@@ -362,8 +379,9 @@ def job_parse(shape):
                 bs, v = digits(ex, st, p[1], p[2]); data += bs; vals[p[1]] = v
             elif p[0] == "osign":
                 b = ex.input("osign", 8); ex.assume(st, or_(eq(b, 43), eq(b, 45))); data.append(b); vals["osign"] = b
-            elif p[0] == "any":
+            elif p[0] in ("any", "anynd"):
                 b = ex.input("anybyte", 8); ex.assume(st, ne(b, 0)); data.append(b); vals["any"] = b      # embedded NULs end the C string: outside the claim
+                if p[0] == "anynd": ex.assume(st, or_(lt(b, 48), gt(b, 57)))                                 # not a further digit of the number
         n = len(data)
         inp = ex.new_obj(st, n + 1, "input bytes")
         for i, b in enumerate(data): ex.store_raw(st, Ptr(inp.obj, i), 1, b)
@@ -431,7 +449,9 @@ def job_parse(shape):
                 v = vals["s"]; v = smt.neg(v) if shape == "s-neg" else v
                 fits = and_(le(I64MIN, v), le(v, I64MAX))
                 if shape == "s-neg": fits = and_(fits, ne(vals["s"], 0))
-                ex.prove(st2, smt.iff(ok, fits), "parse(%%s): accepted iff the decimal value fits int64 (%s)" % shape)
+                if "any" in vals:
+                    fits = and_(fits, or_(eq(vals["any"], 32), and_(le(9, vals["any"]), le(vals["any"], 13))))
+                ex.prove(st2, smt.iff(ok, fits), "parse(%%s): accepted iff the decimal value fits int64 and only whitespace follows (%s)" % shape)
                 ex.prove(st2, implies(ok, eq(ex.load(st2, sec, I64), v)), "parse(%s): the instant is exactly the number")
                 return
             Y = g("Y", 1970); mo = g("m", 1); d = add(g("d", 1), g("dbase", 0)); H = g("H"); M = g("M"); S = g("S")
